@@ -775,11 +775,11 @@ def inline_locals(fn: ast.FunctionDef) -> ast.FunctionDef:
 class Fn:
     """A function of the repository prepared for path/dataflow rules."""
 
-    def __init__(self, world, modname: str, path: str, inline: bool = False):
+    def __init__(self, world, modname: str, path: str, inline: bool = False, node=None):
         from .core import AnalysisError
         self.world = world
         self.mod = world.src.need(modname)
-        fn = find_function(self.mod.tree, path)
+        fn = node if node is not None else find_function(self.mod.tree, path)  # node: one particular definition among several of the same name (dispatch overloads)
         if fn is None or not isinstance(fn, (ast.FunctionDef, ast.AsyncFunctionDef)):
             raise AnalysisError(f"anchor function {modname}:{path} not found")
         if inline:
